@@ -193,6 +193,13 @@ def judge(case, impl_res, ans):
         a = ok['amps_' + use]
         U = S[use]
         one = use[:-1]
+        if U['amps'] is None and any(x >= U['id_count'] for x in U['spikes']):
+            # a spike id beyond the id space (hypothesis `hin` of ampsUse_spec fails; the model says IndexError,
+            # amplitudesTrueUse_none): outside the property, and not reachable through a dataset that loads
+            if 'raised' in a and a['raised'] == 'IndexError':
+                return None
+            return 'CORR: get_amplitudes_true(use=%r) with a spike id beyond the id space: the model says IndexError, the real code %s' % (
+                use, ('raised ' + a['raised']) if 'raised' in a else 'returned')
         if 'raised' in a:
             return 'SPEC: get_amplitudes_true(use=%r) raised %s (%s)' % (use, a['raised'], a['msg'])
         m = U['amps']; ch = U['channels']
@@ -201,7 +208,7 @@ def judge(case, impl_res, ans):
         # ---- consistency of my own model with its theorems
         n_ids = U['id_count']
         if U['n_wav'] != n_ids or len(U['wfs']) != n_ids or m is None:
-            return 'MACHINERY: model id space (%s): n_wav %d, %d waveforms, id count %d (contradicts useArrays_spec / amplitudesTrueUse_defined)' % (
+            return 'MACHINERY: model id space (%s): n_wav %d, %d waveforms, id count %d (contradicts useArrays_clusters_spec / amplitudesTrueUse_defined)' % (
                 use, U['n_wav'], len(U['wfs']), n_ids)
         if m['amps_v'] != m['amps_v_spec']:
             return 'MACHINERY: model amplitudes differ from the mean-over-members spec (contradicts the theorem)'
